@@ -54,6 +54,9 @@ func setChildEnv(w Workload) {
 	if w.MaxDat != 0 {
 		childEnv = []string{fmt.Sprint("C07_MAXDAT=", w.MaxDat)}
 	}
+	if w.Wide == "bulk" {
+		childEnv = append(childEnv, "C07_LIBCYCLES=0") // thousands of blocks per directory: no extra clean-restart cycles in library mode
+	}
 }
 
 // feedBlocks: the blocks a restarted node is fed = every block of the workload except the ones of a branch that is
